@@ -153,4 +153,35 @@ theorem consecFrom_append (x : UInt16) (xs ys : List UInt16) :
   | nil => simp [consecFrom]
   | cons y r ih => simp [consecFrom, ih, and_assoc]
 
+
+/-- (definitional: `wireOf` filters `outsOf` by the `sent` flags) the bridge
+consumes a sequence number for every packet it rewrites, also for one whose push it then refuses
+(mandatory target without keys, protect error, socket full).  What reaches the socket is therefore a
+SUBSEQUENCE of the consecutive run of `bridge_seq_consecutive` — gaps appear exactly at refused
+packets and nowhere else; with nothing refused the two coincide. -/
+theorem wire_seq_subsequence (c : Cfg) (s : UInt32) (xs : List (In × Bool)) (ss : Streams) :
+    List.Sublist (wireOf c s ss xs) (outsOf c s ss (xs.map (·.1))) ∧
+    ((∀ x ∈ xs, x.2 = true) → wireOf c s ss xs = outsOf c s ss (xs.map (·.1))) := by
+  induction xs generalizing ss with
+  | nil => simp [wireOf, outsOf]
+  | cons x rest ih =>
+    obtain ⟨⟨p, a, b⟩, sent⟩ := x
+    obtain ⟨ih1, ih2⟩ := ih (forward c ss p a b).1
+    constructor
+    · simp only [wireOf, outsOf, List.map_cons]
+      by_cases hp : p.ssrc = s
+      · cases sent
+        · simp only [hp, if_true, Bool.false_eq_true, and_false, if_false, List.nil_append, List.singleton_append]
+          exact List.Sublist.cons _ ih1
+        · simp only [hp, and_self, if_true, List.singleton_append]
+          exact List.Sublist.cons_cons _ ih1
+      · simp only [hp, false_and, if_false, List.nil_append]; exact ih1
+    · intro hall
+      have hs : sent = true := hall ((p, a, b), sent) (by simp)
+      subst hs
+      simp only [wireOf, outsOf, List.map_cons]
+      rw [ih2 (fun x hx => hall x (by simp [hx]))]
+      by_cases hp : p.ssrc = s <;> simp [hp]
+
+
 end RtcModel.Bridge
